@@ -143,16 +143,26 @@ class Scaler(Transformer):
         """
         self._verify_input(X, "X")
 
+        # Refuse data that lacks a fitted feature dimension or carries other feature
+        # coordinates: xarray would otherwise broadcast / inner-join against the stored
+        # arrays and hand on something the later validators can no longer tell apart.
+        missing = [dim for dim in self.weights_.dims if dim not in X.dims]
+        if missing:
+            raise ValueError(
+                f"Data to be transformed lacks the dimension(s) {missing} of the data used to fit."
+            )
+
         params = self.get_params()
 
-        if params["with_center"]:
-            X = X - self.mean_
-        if params["with_std"]:
-            X = X / self.std_
-        if params["with_coslat"]:
-            X = X * self.coslat_weights_
+        with xr.set_options(arithmetic_join="exact"):
+            if params["with_center"]:
+                X = X - self.mean_
+            if params["with_std"]:
+                X = X / self.std_
+            if params["with_coslat"]:
+                X = X * self.coslat_weights_
 
-        X = X * self.weights_
+            X = X * self.weights_
         return X
 
     def fit_transform(
